@@ -8,7 +8,7 @@ ID = 'C10'
 LEVEL = 'exploration'
 RULE = ('complete enumeration of chain length x local dimensions (homogeneous arrays; inhomogeneous lists with equal and '
         'site-dependent dims) x interaction rank (2-D rank-1 shorthand, 3-D rank 1, rank 2) x family (real, complex, '
-        'skew-Hermitian) x initial rank (1, 2, maximal) x step size x step count x normalize x scheme (Lie, Lie with '
+        'skew-Hermitian, defective, real chain with a complex last-site term) x state dtype (that of the generator, the other one) x structured site dependence (two of S/L/M uniform with one array object in every slot) x initial rank (1, 2, maximal) x step size x step count x normalize x scheme (Lie, Lie with '
         'user-supplied K, Strang, Yoshida, Kahan-Li); every state compared with the dense product of even/odd-bond matrix '
         'exponentials with the scheme coefficients; observed order from (h, h/2) against expm(T*H); norm conservation on the '
         'skew-Hermitian family; unit norm and rank cap with an active max_rank in {1,2}. Non-trivial: chain length >= 3 (both parities occur), rank-2 interaction, complex data or '
@@ -26,7 +26,7 @@ ORDER = {'lie': 1, 'lieK': 1, 'strang': 2, 'yoshida': 4, 'kahan_li': 6}
 def space(tier):
     q = tier == 'quick'
     return {'chain length': [2, 3, 4] if q else [2, 3, 4, 5, 6], 'forms': ['hom n=2', 'hom n=3', 'inhom equal dims', 'inhom site-dependent dims'],
-            'interaction': ['2d', 'r1', 'r2'], 'family': ['real', 'complex', 'skew', 'defective (non-diagonalisable generators)'], 'initial rank': [1, 2, 'max'], 'h': [0.1, 0.5],
+            'interaction': ['2d', 'r1', 'r2'], 'family': ['real', 'complex', 'skew', 'defective (non-diagonalisable generators)', 'real with a complex last-site term'], 'state dtype': ['as the generator', 'the other one'], 'structured site dependence': ['none', 'only M varies', 'only L varies', 'only S varies'], 'initial rank': [1, 2, 'max'], 'h': [0.1, 0.5],
             'steps': [1, 2], 'normalize': [0, 2], 'schemes': SCHEMES}
 
 
@@ -45,10 +45,28 @@ def cases(tier):
                         for h in (0.1, 0.5):
                             for nz in (0, 2):
                                 yield {'d': d, 'form': form, 'dims': list(dims), 'inter': inter, 'fam': fam, 'r0': r0, 'h': h, 'nz': nz}
+                        # initial state of the OTHER dtype (real state under a complex generator and vice versa)
+                        if fam != 'defective':
+                            yield {'d': d, 'form': form, 'dims': list(dims), 'inter': inter, 'fam': fam, 'r0': r0, 'h': 0.1, 'nz': 0, 'xdt': 'other'}
+                if form == 'inhom':
+                    # real chain with a complex single-site term on the last site only; real and complex initial states
+                    for r0 in (1, 'max'):
+                        for xdt in ('same', 'other'):
+                            yield {'d': d, 'form': form, 'dims': list(dims), 'inter': inter, 'fam': 'lastc', 'r0': r0, 'h': 0.1, 'nz': 0, 'xdt': xdt}
+                    if len(set(dims)) == 1:
+                        # structured site dependence: two of the three component lists uniform (the same array object in every
+                        # slot), the third one site dependent
+                        for struct in ('varyM', 'varyL', 'varyS'):
+                            for fam in ('real', 'complex'):
+                                for r0 in (1, 'max'):
+                                    yield {'d': d, 'form': form, 'dims': list(dims), 'inter': inter, 'fam': fam, 'r0': r0, 'h': 0.1, 'nz': 0, 'struct': struct}
 
 
-def gen_components(rng, dims, form, inter, fam):
+def gen_components(rng, dims, form, inter, fam, struct=None):
     d = len(dims)
+    lastc = fam == 'lastc'
+    if lastc:
+        fam = 'real'
 
     def rnd(shape, herm=False):
         a = rng.standard_normal(shape)
@@ -78,6 +96,15 @@ def gen_components(rng, dims, form, inter, fam):
             S.append(rnd((n, n)))
             Li = rnd((n, n, r)); Mi = rnd((r, n, n))
         L.append(0.7 * Li); M.append(Mi); I.append(np.eye(n))
+    if lastc:
+        S[-1] = S[-1] + 1j * rng.standard_normal(S[-1].shape)
+    if struct is not None:
+        if struct != 'varyS':
+            S = [S[0]] * d
+        if struct != 'varyL':
+            L = [L[0]] * d
+        if struct != 'varyM':
+            M = [M[0]] * d
     if form == 'hom':
         S, L, I, M = S[0], L[0], I[0], M[0]
         if inter == '2d':
@@ -138,7 +165,10 @@ def step_matrix(scheme, He, Ho, h):
 
 
 def copy_comp(X):
-    return [np.array(x) for x in X] if isinstance(X, list) else np.array(X)
+    if not isinstance(X, list):
+        return np.array(X)
+    memo = {}                      # one array object used in several slots stays one object
+    return [memo.setdefault(id(x), np.array(x)) for x in X]
 
 
 def run_case(case, seed):
@@ -146,18 +176,26 @@ def run_case(case, seed):
     r = R(case)
     rng = rng_for(case, seed)
     d, dims, fam, h, nz = case['d'], case['dims'], case['fam'], case['h'], case['nz']
-    S, L, I, M = gen_components(rng, dims, case['form'], case['inter'], fam)
+    S, L, I, M = gen_components(rng, dims, case['form'], case['inter'], fam, case.get('struct'))
     He, Ho, Ks = dense_generators(S, L, I, M, dims)
     sc = max(np.linalg.norm(He, 2), np.linalg.norm(Ho, 2))
     # scale the components so that the generator has norm ~1 (keeps h*H moderate): S, L scaled; M, I untouched
     if isinstance(S, list):
-        S = [x / sc for x in S]; L = [x / sc for x in L]
+        S = copy_comp(S); L = copy_comp(L)
+        for X in (S, L):
+            done = set()
+            for x in X:
+                if id(x) not in done:
+                    x /= sc; done.add(id(x))
     else:
         S = S / sc; L = L / sc
     He, Ho, Ks = dense_generators(S, L, I, M, dims)
     H = He + Ho
     rk = max_ranks(dims) if case['r0'] == 'max' else [1] + [min(case['r0'], m) for m in max_ranks(dims)[1:-1]] + [1]
-    x0t = tt_from(rand_cores(rng, dims, [1] * d, rk, fam in ('complex', 'skew')))
+    xc = fam in ('complex', 'skew')
+    if case.get('xdt') == 'other':
+        xc = not xc
+    x0t = tt_from(rand_cores(rng, dims, [1] * d, rk, xc))
     x0t = (1.0 / x0t.norm()) * x0t
     x0 = vec(x0t)
     sX = snap(x0t)
